@@ -262,7 +262,11 @@ class Interp:
             k = self.ctx.known_tags.get(key)
             if k is not None:
                 return k
-            names = ["vnone", "vbool", "vint", "vfloat", "vstr", "vbytes", "vlist", "vdict", "vobj"]
+            names = ["vnone", "vbool", "vint", "vfloat", "vstr", "vbytes", "vlist", "vdict"]
+            # values whose constructor is not syntactically known are data (JSON model + bytes); heap
+            # objects are tracked concretely and reach terms only through explicit vobj(id) constructors
+            self.ctx.axiom(z3.Not(z3.Or(is_tag(v.t, "vobj"), is_tag(v.t, "vabsent"))),
+                           "symbolic data values are not object references")
             idx = self.ctx.choose([is_tag(v.t, n) for n in names])
             self.ctx.known_tags[key] = names[idx]
             return names[idx]
@@ -665,6 +669,11 @@ class Interp:
             return self.instantiate(f, args, kwargs)
         if isinstance(f, functools.partial):
             raise Unsupported("functools.partial")
+        if isinstance(f, types.BuiltinMethodType) and type(getattr(f, "__self__", None)).__name__ == "Pattern":
+            pm = getattr(cfg, "pattern_match", None)
+            if pm is not None and f.__name__ == "match":
+                return pm(self, f.__self__, args, kwargs)
+            raise Unsupported("re.Pattern.%s" % f.__name__)
         from . import builtins_impl
         return builtins_impl.call_builtin(self, f, args, kwargs)
 
